@@ -152,6 +152,7 @@ type Scenario struct {
 	Setup          []Op         `json:"setup"`
 	Threads        []ThreadSpec `json:"threads"`
 	Writer         int          `json:"writer"`                     // index of the (single) mutating thread, -1 if none
+	Prop           string       `json:"prop,omitempty"`             // property the generic clauses are attributed to (default C06, C14 with a closer)
 	MetaCloseFails bool         `json:"meta_close_fails,omitempty"` // the metadata store's Close returns an error
 	Closer         bool         `json:"closer"`                     // some thread calls Close: ErrClosed answers are legal once Close was invoked
 }
@@ -237,6 +238,17 @@ func RunScenario(sc *Scenario, ch vsched.Chooser, trace bool) (*vsched.Result, *
 			rec.DaemonsLeft = vsched.DaemonsLeft()
 			rec.OpenHandlesAtEnd = sys.Disk.OpenHandles
 		} else {
+			// every thread is done and background work has run: the files of segments that
+			// truncations removed must be gone, nothing else may be missing
+			if exp, err := ExpectedListing(sys.MetaRaw()); err == nil {
+				var have []string
+				for _, n := range sys.List() {
+					have = append(have, n)
+				}
+				if !sameStrings(exp, have) {
+					rec.PostViol = append(rec.PostViol, Violation{Prop: "C13", Msg: fmt.Sprintf("after all calls returned and readers finished the directory holds %v, metadata lists %v", have, exp)})
+				}
+			}
 			w.Close()
 			vsched.Quiesce()
 		}
@@ -380,6 +392,9 @@ func CheckExecution(sc *Scenario, res *vsched.Result, rec *ExecRecord) []Violati
 	prop := "C06"
 	if sc.Closer {
 		prop = "C14"
+	}
+	if sc.Prop != "" {
+		prop = sc.Prop
 	}
 	add := func(p, f string, a ...interface{}) { vs = append(vs, Violation{Prop: p, Msg: fmt.Sprintf(f, a...)}) }
 	for _, p := range res.Panics {
